@@ -55,7 +55,7 @@ CHECKS = {
    note="Trusted: the fiber scheduler and shadow map (sim/seams/fiber.cc), clang's TSan instrumentation pass (which accesses are instrumented), llvm-symbolizer for naming conflict sites. Fibers are not hardware threads (no weak memory, no word tearing); the footprint-based detector makes a conflict visible in every schedule in which both tasks execute the code."),
  "C08": dict(engine="E-HIST hist.bitmap", category="exploration",
    technique="deterministic simulation: seeded operation histories against a reference set model",
-   text="Seeded search over operation histories (add/remove/ranges/clear/clone/bulk add/set algebra/serialise+deserialise on a pool of three objects, biased to drive cardinality across 4096 and to hit run containers) executed against the real varintBitmap.c; after every operation the object's answers (return values, cardinality, emptiness, ascending duplicate-free iteration, array export, sampled and full membership sweeps, operands unchanged) are compared with a 65536-bit set model. Exploration is the right level: the history space is unbounded, transitions depend on the path taken, and a clean batch is evidence over the seeds run, not proof.",
+   text="Seeded search over operation histories (add/remove/ranges/clear/clone/bulk add/set algebra/serialise+deserialise on a pool of three objects, biased to drive cardinality across 4096 and to hit run containers) executed against the real varintBitmap.c; after every operation the object's answers (return values, cardinality, emptiness, ascending duplicate-free iteration, array export, sampled and full membership sweeps, operands unchanged) are compared with a 65536-bit set model. The same histories run a second time against an unsanitised gcc -O2 build, where glibc hands a freed block straight back (ASan's quarantine never does), so library state keyed on a block's address meets a reused address. Exploration is the right level: the history space is unbounded, transitions depend on the path taken, and a clean batch is evidence over the seeds run, not proof.",
    design_ref="DESIGN.md 2.7, 3/C08",
    note="Trusted: the bitset model and comparison code in sim/engines/hist_bitmap.cc; ASan as memory monitor; the allocator shim in pass-through mode. The container type is read from the public struct only for reach counters and finding keys, never by the oracle. Histories are bounded (<= 40 ops quick, <= 80 thorough; 3 objects)."),
 }
